@@ -385,6 +385,10 @@ def splice(template_path, repo_root, canary=False, quarantine=(), inline=None):
             info.src_first_line = body.first_line
             blines = text.split("\n")
             header_copy = list(out[h:])
+            ha = h
+            while ha > 0 and out[ha - 1].strip().startswith("#["):      # attributes of the function go with its canary copy
+                ha -= 1
+            attr_copy = list(out[ha:h])
             first = len(out) + 1
             for k, bl in enumerate(blines):
                 emit(bl)
@@ -397,6 +401,8 @@ def splice(template_path, repo_root, canary=False, quarantine=(), inline=None):
                 # The original stays, so callers are still checked against the original contract
                 # (a canary on the original would make every caller vacuous).
                 header_copy[0] = re.sub(r"\bfn\s+" + tname + r"\b", "fn " + tname + "__canary", header_copy[0], count=1)
+                for al in attr_copy:
+                    emit(al)
                 cstart = len(out) + 1
                 for hl in header_copy:
                     emit(hl)
